@@ -14,15 +14,25 @@ from . import hidc_api   # noqa: F401  (puts /repo on sys.path)
 class FaultPlan:
     """Raise OSError(errno) at the k-th file-system call (0-based); k None = no fault."""
 
-    def __init__(self, at=None, err=errno.EIO):
+    def __init__(self, at=None, err=errno.EIO, short_read=None, short_write=None, eintr_at=None):
         self.at = at
         self.err = err
         self.calls = []       # log of (kind, path)
         self.fired = None
+        # legal but unusual device behaviour, which must change nothing: a raw read that returns at most
+        # `short_read` bytes, a raw write that accepts at most `short_write` bytes, a signal (EINTR) at call k
+        self.short_read = short_read
+        self.short_write = short_write
+        self.eintr_at = eintr_at
+        self.shorts = 0
+        self.eintr_fired = 0
 
     def step(self, kind, path):
         i = len(self.calls)
         self.calls.append((kind, path))
+        if self.eintr_at is not None and i == self.eintr_at and kind in ('read', 'write'):
+            self.eintr_fired += 1
+            raise InterruptedError(errno.EINTR, os.strerror(errno.EINTR))
         if self.at is not None and i == self.at:
             self.fired = (kind, path, self.err)
             raise OSError(self.err, os.strerror(self.err), path)
@@ -38,6 +48,9 @@ class _RawReader(io.RawIOBase):
     def readinto(self, b):
         self.fs.plan.step('read', self.path)
         n = min(len(b), len(self.buf) - self.pos)
+        if self.fs.plan.short_read and n > self.fs.plan.short_read:
+            n = self.fs.plan.short_read
+            self.fs.plan.shorts += 1
         b[:n] = self.buf[self.pos:self.pos + n]
         self.pos += n
         return n
@@ -56,8 +69,12 @@ class _RawWriter(io.RawIOBase):
 
     def write(self, b):
         self.fs.plan.step('write', self.path)
-        self.fs.files[self.path] = self.fs.files.get(self.path, b'') + bytes(b)
-        return len(b)
+        n = len(b)
+        if self.fs.plan.short_write and n > self.fs.plan.short_write:
+            n = self.fs.plan.short_write
+            self.fs.plan.shorts += 1
+        self.fs.files[self.path] = self.fs.files.get(self.path, b'') + bytes(b[:n])
+        return n
 
     def close(self):
         if not self.closed:
